@@ -150,6 +150,9 @@ fn val_spelling(v: &str) -> Vec<u8> {
             if v.len() == 3 && v.starts_with('c') {
                 return format!("\\u00{}", &v[1..]).into_bytes();
             }
+            if let Some(n) = v.strip_prefix("big").and_then(|x| x.parse::<usize>().ok()) {
+                return vec![b'a'; n];       // a value of n bytes (the tag section's u16 length field is the limit)
+            }
             tool_error(&format!("unknown tag value class {}", v))
         }
     };
@@ -182,6 +185,9 @@ fn char_bytes(c: &str) -> Vec<u8> {
                 if let Ok(b) = u8::from_str_radix(&c[1..], 16) {
                     return vec![b];
                 }
+            }
+            if let Some(n) = c.strip_prefix("big").and_then(|x| x.parse::<usize>().ok()) {
+                return vec![b'a'; n];
             }
             tool_error(&format!("unknown denoted value class {}", c))
         }
